@@ -114,6 +114,24 @@ class Api:
         cond = z3.And(*[z3.Or(st.own[f] > own0[f], immortal(f), *[f == p for p in kept]) for f in used])
         return self.cx.require(st, cond, "valid-deref:live-reference:%s" % what)
 
+    def protect_borrowed(self, st, args, what):
+        """A pointer borrowed from an instance dictionary may be handed to code that runs arbitrary Python (a type slot, a trait
+        handler, a Python-level call) only while this function holds a reference of its own to it (or it is immortal / one of the
+        function's own arguments): the Python code may replace or delete the dictionary entry, which may be the last owner, and
+        the callee would go on using a freed object."""
+        if st.own is None:
+            return st
+        borrowed = st.ghost.get("borrowed_values", ())
+        if not borrowed:
+            return st
+        own0 = z3.Const("own0", st.own.sort())
+        kept = st.ghost.get("caller_kept", ())
+        for a in args:
+            if z3.is_expr(a) and a.sort() == Obj and any(a.eq(b) for b in borrowed):
+                cond = z3.Or(a == NULL, st.own[a] > own0[a], immortal(a), *[a == p for p in kept])
+                st = self.cx.require(st, cond, "valid-deref:borrowed-from-the-instance-dictionary-and-unprotected-across-python-code:%s" % what)
+        return st
+
     def own_inc(self, st, o, d=1):
         if st.own is None:
             return st
@@ -569,7 +587,13 @@ def _dict_getitem(self, a, st, k):
     d, key = a
     st = self.nonnull(st, d, "PyDict_GetItem")
     st = self.nonnull(st, key, "PyDict_GetItem(key)")
-    return k(dict_arr(st)[d][key], st.log(("dict-get", d, key)))
+    r = dict_arr(st)[d][key]
+    st = st.log(("dict-get", d, key))
+    # a value borrowed from an INSTANCE DICTIONARY (obj->obj_dict, the user-mutable value store): its only known owner is that
+    # dictionary, which any Python code may change (see Api.protect_borrowed)
+    if z3.is_app(d) and d.decl().kind() == z3.Z3_OP_SELECT and "obj_dict" in str(d.arg(0).decl().name()):
+        st = st.gset("borrowed_values", st.ghost.get("borrowed_values", ()) + (r,))
+    return k(r, st)
 
 
 def _dict_setitem(self, a, st, k):
